@@ -7,6 +7,10 @@ K : Numerics.<k-point formula> and make_extrap_func (array- and Spectrum-valued,
 L3: the property statement evaluated on the real code, independent of the model: value at x=0 of the planted polynomial
     (Neville in exact fractions as the reference), all orderings, log variant, planted fallback entries, labels/mask,
     pts positional vs keyword, counts outside 1..6, extrap_x recorded by from_phi, real demographic models.
+    Which x values are used (round 4): an explicit extrap_x_l must decide also when the Spectrum-valued results carry
+    another extrap_x or None; without it the results' extrap_x are used; plain arrays / Spectra without extrap_x and no
+    explicit list must be refused.  T: the statements assigning x_l are translated (xSelect); K: the x list the real
+    formulas receive (recorded) vs the model (c07.xsel), and c07.xdispatch / c07.xfull take the x source as input.
 """
 import itertools, math
 from fractions import Fraction
@@ -89,6 +93,8 @@ def gen_case(rng, dadi, tier, k=None, **force):
         shape = [int(rng.integers(3, 8))] if rng.random() < 0.6 else [int(rng.integers(3, 5)), int(rng.integers(3, 5))]
     else:
         shape = [[1], [int(rng.integers(1, 9))], [2, 3], [0]][int(rng.choice(4, p=[0.15, 0.6, 0.2, 0.05]))]
+    if force.get('planted') == 'both':
+        shape = [int(rng.integers(5, 9))] if (valued == 'array' or rng.random() < 0.6) else [3, int(rng.integers(3, 5))]
     n = int(np.prod(shape))
     # degree < k: exactness applies; occasionally degree >= k (K and order only)
     if k == 0: deg = 0
@@ -103,17 +109,64 @@ def gen_case(rng, dadi, tier, k=None, **force):
     C = np.vectorize(coarse)(C) if C.size else C
     fm = force.get('fail_mag', [None, None, 10, 2, 5, 12, 0, 3.5, 0.75][int(rng.integers(9))])
     planted = []
-    if k >= 2 and n >= 1 and rng.random() < (0.6 if 'planted' not in force else force['planted']):
+    if force.get('planted') == 'both' and k >= 2:
+        # one entry inside the stated window (must keep its extrapolated value) and one beyond it (must fall back),
+        # on entries that are not masked corners
+        lo, hi = (1, n - 1) if valued == 'spectrum' else (0, n)
+        ids = [int(v) for v in rng.permutation(np.arange(lo, hi))[:2]]
+        fmv = 10 if fm is None else fm
+        inside = fmv - float(rng.choice([0.4, 1.0, 3.0, 0.45 * fmv, 0.8 * fmv]))
+        beyond = fmv + float(rng.choice([0.4, 1.0, 3.0]))
+        for idx, d in zip(ids, [inside, beyond] if inside > 0 else [beyond]):
+            planted.append((idx, d, int(rng.choice([1, -1]))))
+    elif k >= 2 and n >= 1 and rng.random() < (0.6 if 'planted' not in force else force['planted']):
         for _ in range(int(rng.integers(1, 3))):
             idx = int(rng.integers(n))
             if any(p[0] == idx for p in planted): continue
             fmv = 10 if fm is None else fm
             off = float(rng.choice([-3, -1, -0.4, 0.4, 1, 3, 20]))
             planted.append((idx, fmv + off if fmv + off > 0 else fmv + abs(off), int(rng.choice([1, -1]))))
+    pts_kw = bool(rng.random() < 0.4)
+    # ---- where the x values come from.  `xs` are the x values the grid dependence is polynomial in, i.e. the ones that
+    # must be used: given explicitly (then the results may carry the same, other, or no x values) or carried by the results.
+    xsrc = force.get('xsrc')
+    if xsrc is None:
+        if valued == 'array':
+            xsrc = 'explicit' if rng.random() < 0.93 else 'absent'
+        else:
+            xsrc = ['results', 'explicit+same', 'explicit+other', 'explicit+none', 'absent'][int(rng.choice(5, p=[0.32, 0.12, 0.32, 0.17, 0.07]))]
+    res_xs = None
+    if valued == 'spectrum':
+        if xsrc in ('results', 'explicit+same'): res_xs = list(xs)
+        elif xsrc == 'explicit+other': res_xs = other_xs(rng, dadi, k, pts, xs, kind)
     return dict(k=k, pts_l=pts, xs=xs, xkind=kind, valued=valued, mode=mode, shape=shape, deg=deg, C=C,
-                fail_mag=fm, planted=planted, pts_kw=bool(rng.random() < 0.4), explicit_x=bool(valued == 'array' or rng.random() < 0.3),
+                fail_mag=fm, planted=planted, pts_kw=pts_kw, explicit_x=bool(xsrc.startswith('explicit')), xsrc=xsrc, res_xs=res_xs,
                 scale=coarse(float(rng.uniform(0.5, 2.0))), pop_ids=(['A', 'B'][:len(shape)] if rng.random() < 0.7 else None),
-                scalar_pts=bool(k == 1 and rng.random() < 0.4))
+                scalar_pts=bool(k == 1 and rng.random() < 0.4), log_wrapper_fail_mag=bool(rng.random() < 0.5))
+
+def other_xs(rng, dadi, k, pts, xs, kind):
+    """k distinct x values, all different from the explicit ones, for the Spectra to carry: what Spectrum.from_phi would
+    record for these pts (when the explicit ones are something else), or unrelated values in another order"""
+    if kind not in ('grid', 'grid_shuffled') and rng.random() < 0.5:
+        cand = [float(dadi.Numerics.default_grid(p)[1]) for p in pts]
+    else:
+        while True:
+            cand = [coarse(v) for v in rng.uniform(0.005, 1.5, k)]
+            if all(abs(a - b) > 0.03 * max(a, b) for i, a in enumerate(cand) for b in cand[i + 1:]): break
+    if len(set(cand)) != k or any(abs(c - x) <= 1e-3 * abs(x) for c in cand for x in xs):
+        cand = [coarse(abs(x) * (1.37 + 0.61 * i) + 0.011) for i, x in enumerate(xs)]
+        if len(set(cand)) != k or any(c == x for c in cand for x in xs):
+            cand = [2.0 + i for i in range(k)]
+    return cand
+
+def x_tokens(case, order=None):
+    """(explicit, attrs) of the driver ops c07.xsel / c07.xdispatch / c07.xfull for this case"""
+    order = list(range(case['k'])) if order is None else list(order)
+    ex = fmt_list([case['xs'][i] for i in order]) if case['explicit_x'] else 'none'
+    if case['valued'] == 'array': at = ['m'] * len(order)
+    elif case.get('res_xs') is None: at = ['n'] * len(order)
+    else: at = [rat(case['res_xs'][i]) for i in order]
+    return ex, (','.join(at) if at else '-')
 
 def tables(case):
     """the float arrays the model function returns for each pts (polynomial / exp-polynomial in x, planted entries
@@ -167,8 +220,8 @@ def make_func(dadi, case, Y, calls=None):
         i = idx[int(pts)]
         a = (Y[i].reshape(shape) * (scale_arg / case['scale']) + shift).copy()
         if case['valued'] == 'spectrum':
-            fs = dadi.Spectrum(a, mask_corners=True, pop_ids=case['pop_ids'])
-            fs.extrap_x = case['xs'][i]
+            rx = case['res_xs'] if 'xsrc' in case else case['xs']       # replays of older cases: results carry xs
+            fs = dadi.Spectrum(a, mask_corners=True, pop_ids=case['pop_ids'], extrap_x=(None if rx is None else rx[i]))
             return fs
         return a
     return func
@@ -182,7 +235,9 @@ def call_wrapped(dadi, case, func, order=None, fail_mag='case'):
     if fm is not None: kw['fail_mag'] = fm
     xl = xs if case['explicit_x'] else None
     if case['mode'] == 'log':
-        if fm is not None:      # make_extrap_log_func has no fail_mag argument: same thing through make_extrap_func
+        if fm is not None and case.get('log_wrapper_fail_mag') and _log_wrapper_takes_fail_mag(dadi):
+            f = dadi.Numerics.make_extrap_log_func(func, extrap_x_l=xl, fail_mag=fm)
+        elif fm is not None:    # make_extrap_log_func has no fail_mag argument: same thing through make_extrap_func
             f = dadi.Numerics.make_extrap_func(func, extrap_x_l=xl, extrap_log=True, fail_mag=fm)
         else:
             f = dadi.Numerics.make_extrap_log_func(func, extrap_x_l=xl)
@@ -192,6 +247,13 @@ def call_wrapped(dadi, case, func, order=None, fail_mag='case'):
     if case['pts_kw']:
         return f(case['scale'], pts=arg)
     return f(case['scale'], arg)
+
+def _log_wrapper_takes_fail_mag(dadi):
+    import inspect
+    try:
+        return 'fail_mag' in inspect.signature(dadi.Numerics.make_extrap_log_func).parameters
+    except (TypeError, ValueError):
+        return False
 
 def wname(case):
     return 'make_extrap_log_func' if case['mode'] == 'log' else 'make_extrap_func'
@@ -215,11 +277,13 @@ def check_case(chk, ctx, case, perms=6):
     Y, plant_info = tables(case)
     func = make_func(dadi, case, Y)
     key0 = '%s:k=%d' % (name, k)
-    ckey = (k, case['xkind'], case['valued'], case['mode'], case['pts_kw'], case['explicit_x'], len(case['shape']),
+    xsrc = case.get('xsrc', 'explicit' if case['explicit_x'] else 'results')
+    ckey = (k, case['xkind'], case['valued'], case['mode'], case['pts_kw'], xsrc, len(case['shape']),
             case['deg'] < k, bool(plant_info), case['fail_mag'])
     chk.l3(ckey)
     chk.stat('k=%d' % k); chk.stat('x:' + case['xkind']); chk.stat('valued:' + case['valued']); chk.stat('mode:' + case['mode'])
     chk.stat('pts:' + ('keyword' if case['pts_kw'] else 'positional'))
+    chk.stat('x_source:%s:%s' % (case['valued'], xsrc))
     chk.stat('fail_mag:%s' % ('default' if case['fail_mag'] is None else case['fail_mag']))
     if plant_info: chk.stat('planted_entries', len(plant_info))
     seen = ctx.setdefault('_sampled', set())
@@ -227,7 +291,7 @@ def check_case(chk, ctx, case, perms=6):
       seen.add((k, case['mode'] == 'log' and k % 2 == 0))
       chk.sample(dict(call=name, k=k, pts_l=case['pts_l'], xs=case['xs'], x_kind=case['xkind'], valued=case['valued'],
                     shape=case['shape'], degree=case['deg'], fail_mag=case['fail_mag'], planted=[list(p) for p in plant_info],
-                    pts_keyword=case['pts_kw']), cap=14)
+                    pts_keyword=case['pts_kw'], x_source=xsrc, extrap_x_of_results=case.get('res_xs')), cap=14)
     # ---- counts outside 1..6
     if k == 0 or k > 6:
         try:
@@ -238,6 +302,9 @@ def check_case(chk, ctx, case, perms=6):
             chk.fail(key0 + ':' + type(e).__name__, '%s with %d grids raises %r instead of the documented ValueError' % (name, k, e), small(case))
             _k_error(chk, ctx, case, Y, type(e).__name__); return
         chk.fail(key0 + ':accepted', '%s accepted %d grids (documented: between 1 and 6)' % (name, k), small(case)); return
+    # ---- no x values anywhere: no explicit list and the results carry none (plain arrays / Spectra with extrap_x None)
+    if xsrc == 'absent':
+        l3_absent(chk, ctx, case, func, Y, key0); return
     # ---- the call itself
     try:
         with np.errstate(all='ignore'):
@@ -315,10 +382,18 @@ def check_case(chk, ctx, case, perms=6):
                 bad = bad or not (abs(got - c0) <= tolrel * c0)
         if bad:
             what = 'fallback' if (fell[e] or e in planted_idx) else ('inexact' if polynomial else 'interpolation')
+            note = ''
+            if xsrc == 'explicit+other' and k >= 2:
+                # is it the extrapolation in the x values the Spectra carry instead of the explicit ones?
+                alt = float(neville0(case['res_xs'], [float(Yin[i, e]) for i in range(k)]))
+                alt = alt if case['mode'] == 'linear' else math.exp(min(alt, 700))
+                if math.isfinite(got) and abs(got - alt) <= 1e-6 * max(abs(alt), abs(got)):
+                    what = 'x_source'
+                    note = '; this is the extrapolation in the extrap_x values carried by the results %r: the explicit extrap_x_l %r was ignored' % (case['res_xs'], case['xs'])
             chk.fail('%s:%s' % (key0, what),
-                     '%s with %d grids: entry %d is %r, expected %r (%s; finest-grid value %r, exact extrapolation %r, fail_mag %r)'
-                     % (name, k, e, got, float(expect[e]), 'falls back to the finest-grid value' if fell[e] else 'value at x=0 of the degree-%d polynomial dependence' % min(case['deg'], k - 1),
-                        float(Y[ibest, e]), float(ex_exact[e]) if case['mode'] == 'linear' else math.exp(min(float(ex_exact[e]), 700)), case['fail_mag']), small(case))
+                     '%s with %d grids (x values from: %s): entry %d is %r, expected %r (%s; finest-grid value %r, exact extrapolation %r, fail_mag %r)%s'
+                     % (name, k, xsrc, e, got, float(expect[e]), 'falls back to the finest-grid value' if fell[e] else 'value at x=0 of the degree-%d polynomial dependence' % min(case['deg'], k - 1),
+                        float(Y[ibest, e]), float(ex_exact[e]) if case['mode'] == 'linear' else math.exp(min(float(ex_exact[e]), 700)), case['fail_mag'], note), small(case))
             break
     # ---- L3 (b): order of the grid list
     orders = list(itertools.permutations(range(k))) if k <= 4 else [tuple(ctx['_rng'].permutation(k)) for _ in range(perms)]
@@ -365,10 +440,11 @@ def _k_error(chk, ctx, case, Y, impl_exc):
     with np.errstate(all='ignore'):
         Yin = Y if case['mode'] == 'linear' else np.log(Y)
     Yin = np.where(np.isfinite(Yin), Yin, 1.0)       # the values are irrelevant for which error is raised
+    ex, at = x_tokens(case)
     if n == 0 or k == 0:
-        out = driver.ask('c07.formula %s %s' % (fmt_list([1.0] * k), fmt_list(case['xs'])))
+        out = driver.ask('c07.xdispatch %s %s %s' % (ex, at, ';'.join(['1'] * k) if k else '-'))
     else:
-        out = driver.ask('c07.dispatch %s %s' % (_fmt_rows(Yin, np.arange(n)), fmt_list(case['xs'])))
+        out = driver.ask('c07.xdispatch %s %s %s' % (ex, at, _fmt_rows(Yin, np.arange(n))))
     op = 'dispatch:error'
     if out.startswith('err ') and out[4:].split(':')[0] == impl_exc:
         chk.k_ok(op); chk.stat('error_kind:' + out[4:])
@@ -381,7 +457,7 @@ def k_case(chk, ctx, case, Y, Yin, data, keep, amp, ymax):
     cols = np.nonzero(keep)[0]
     if len(cols) == 0:
         return
-    rows = _fmt_rows(Yin, cols); xs = fmt_list(case['xs'])
+    rows = _fmt_rows(Yin, cols); xex, xat = x_tokens(case)
     # (1) dispatch without fallback: the wrapped function with fail_mag = inf
     func = make_func(dadi, case, Y)
     try:
@@ -390,7 +466,7 @@ def k_case(chk, ctx, case, Y, Yin, data, keep, amp, ymax):
         impl = unmasked(r, case)[0][cols]
     except Exception as e:
         impl = None; exc = type(e).__name__
-    out = driver.ask('c07.dispatch %s %s' % (rows, xs))
+    out = driver.ask('c07.xdispatch %s %s %s' % (xex, xat, rows))
     op = 'dispatch:k=%d' % k
     if impl is None:
         if out.startswith('err ') and out[4:].split(':')[0] == exc: chk.k_ok(op)
@@ -415,7 +491,7 @@ def k_case(chk, ctx, case, Y, Yin, data, keep, amp, ymax):
     fm = case['fail_mag']
     fmv = 10 if fm is None else fm
     if case['mode'] == 'linear' and float(fmv).is_integer() and fmv >= 0:
-        out = driver.ask('c07.full %d %s %s' % (int(fmv), rows, xs))
+        out = driver.ask('c07.xfull %d %s %s %s' % (int(fmv), xex, xat, rows))
         op = 'full:k=%d' % k
         if not out.startswith('ok '):
             chk.k_bad(op, small(case), data[cols], out, None); return
@@ -446,6 +522,129 @@ def k_case(chk, ctx, case, Y, Yin, data, keep, amp, ymax):
             chk.k_ok(op); chk.stat('model_fallback_entries', int(np.sum(fb & use)))
         else:
             chk.k_bad(op, small(case), impl2, mv, err)
+
+# ----------------------------------------------------------------------------------------------- no x values anywhere
+def l3_absent(chk, ctx, case, func, Y, key0):
+    """no explicit extrap_x_l and results without x values: with 2..6 grids there is nothing to extrapolate in, so the call
+    must be refused (plain arrays: the documented ValueError) -- never answered with a number; one grid needs no x."""
+    dadi = ctx['dadi']; k = case['k']; name = wname(case)
+    chk.stat('refusal_cases')
+    exc = None; r = None
+    try:
+        with np.errstate(all='ignore'):
+            r = call_wrapped(dadi, case, func)
+    except Exception as e:
+        exc = e
+    if k >= 2:
+        if exc is None:
+            chk.fail(key0 + ':x_source:accepted', '%s with %d grids, no extrap_x_l and %s: returned a result although no x values are available'
+                     % (name, k, 'plain arrays' if case['valued'] == 'array' else 'Spectrum results whose extrap_x is None'), small(case))
+        elif case['valued'] == 'array' and not isinstance(exc, ValueError):
+            chk.fail(key0 + ':x_source:' + type(exc).__name__, '%s with plain arrays and no extrap_x_l raises %r instead of the documented ValueError' % (name, exc), small(case))
+    elif exc is None:
+        want = func(case['scale'], case['pts_l'][0])
+        d, m = unmasked(r, case); dw, mw = unmasked(want, case)
+        if not (np.array_equal(m, mw) and np.allclose(d[~m], dw[~mw], rtol=1e-12, atol=0, equal_nan=True)):
+            chk.fail(key0 + ':identity', 'one grid size does not return the model value', small(case))
+    if exc is not None:
+        _k_error(chk, ctx, case, Y, type(exc).__name__)
+    else:
+        driver = ctx['driver']
+        if driver is not None and driver.ok():
+            ex, at = x_tokens(case)
+            out = driver.ask('c07.xsel %s %s %d' % (ex, at, k))
+            if out.startswith('ok'): chk.k_ok('xsel:accepted')
+            else: chk.k_bad('xsel:accepted', small(case), 'no error', out, None)
+
+# ----------------------------------------------------------------------------------------------- K: which x list the formulas receive
+def k_xsource(chk, ctx, rng, table, reps):
+    """The k-point formulas of the real module are replaced by recorders for one call, so the x list `extrap_func` hands to
+    them is observed directly and compared with the model's choice (generated `xSelect` + consumption), for every k = 1..6,
+    with/without explicit extrap_x_l, results = plain arrays / Spectra with extrap_x / with extrap_x None / mixtures, both wrappers."""
+    dadi = ctx['dadi']; N = dadi.Numerics; driver = ctx['driver']
+    if driver is None or not driver.ok(): return
+    kinds = ['array', 'val', 'none', 'val+none', 'array+val']
+    names = sorted(set(nm for nm, _ in table.values()))
+    for rep_ in range(reps):
+        for k in range(1, 7):
+            for explicit in (False, True):
+                for kind in kinds:
+                    if '+' in kind and k < 2: continue
+                    pts = [int(v) for v in rng.choice(np.arange(5, 200), size=k, replace=False)]
+                    vals = [coarse(v) for v in rng.permutation(np.linspace(0.02, 1.0, 2 * k))]
+                    xs_e, xs_r = vals[:k], vals[k:]
+                    if '+' in kind:
+                        a, b = kind.split('+')
+                        per = [a, b] + [str(rng.choice([a, b])) for _ in range(k - 2)]
+                        per = [per[i] for i in rng.permutation(k)]
+                    else:
+                        per = [kind] * k
+                    at = ','.join('m' if q == 'array' else ('n' if q == 'none' else rat(xs_r[i])) for i, q in enumerate(per))
+                    def model(p, _pts=pts, _per=per, _xr=xs_r):
+                        i = _pts.index(int(p)); v = np.array([0.0, 1.0 + i, 2.5, 0.0])
+                        if _per[i] == 'array': return v
+                        return dadi.Spectrum(v, extrap_x=(_xr[i] if _per[i] == 'val' else None))
+                    log = bool(rng.random() < 0.5)
+                    seen = []
+                    def recorder(ys, xs):
+                        seen.append(list(xs))
+                        [x * 1.0 for x in xs]                 # the formulas do arithmetic with every x
+                        return ys[0] * 1.0
+                    saved = {nm: getattr(N, nm) for nm in names if hasattr(N, nm)}
+                    try:
+                        for nm in saved: setattr(N, nm, recorder)
+                        xl = list(xs_e) if explicit else None
+                        f = N.make_extrap_log_func(model, extrap_x_l=xl) if log else N.make_extrap_func(model, extrap_x_l=xl)
+                        with np.errstate(all='ignore'):
+                            f(pts)
+                        impl = ('ok', seen[-1] if seen else None)
+                    except Exception as e:
+                        impl = ('err', type(e).__name__)
+                    finally:
+                        for nm, fn in saved.items(): setattr(N, nm, fn)
+                    out = driver.ask('c07.xsel %s %s %d' % (fmt_list(xs_e) if explicit else 'none', at, k))
+                    op = 'xsel:k=%d' % k
+                    inp = dict(xsel=True, k=k, explicit_extrap_x_l=(xs_e if explicit else None), results=per, results_extrap_x=xs_r, log=log)
+                    chk.stat('xsel:%s:%s' % ('explicit' if explicit else 'no_explicit', kind))
+                    if impl[0] == 'err':
+                        if out.startswith('err ') and out[4:].split(':')[0] == impl[1]: chk.k_ok(op); chk.stat('error_kind:' + out[4:])
+                        else: chk.k_bad(op, inp, impl[1], out, None)
+                    elif not out.startswith('ok '):
+                        chk.k_bad(op, inp, impl[1], out, None)
+                    elif impl[1] is None or [Fraction(float(v)) for v in impl[1]] == parse_list(out[3:]):
+                        chk.k_ok(op)
+                    else:
+                        chk.k_bad(op, inp, impl[1], out, None)
+
+def k_binding(chk, ctx):
+    """what make_extrap_log_func hands to make_extrap_func: the closure of the real wrapper vs the generated binding"""
+    import ast as _ast
+    dadi = ctx['dadi']; N = dadi.Numerics; driver = ctx['driver']
+    if driver is None or not driver.ok(): return
+    out = driver.ask('c07.binding')
+    if not out.startswith('ok '):
+        chk.k_bad('binding', {}, None, out, None); return
+    def model(pts): return np.array([1.0])
+    xl = [0.25, 0.5]
+    f = N.make_extrap_log_func(model, xl)
+    try:
+        cells = dict(zip(f.__code__.co_freevars, [c.cell_contents for c in (f.__closure__ or ())]))
+    except Exception:
+        cells = {}
+    given = {'func': model, 'extrap_x_l': xl}
+    for ent in out[3:].split(';'):
+        p_, v = ent.split('=', 1)
+        if p_ not in cells:
+            chk.stat('binding_unobservable:' + p_); continue
+        if v.startswith('const:'): want = _ast.literal_eval(v[6:])
+        elif v.startswith('arg:'):
+            nm = v[4:].split('=')[0]
+            want = given[nm] if nm in given else _ast.literal_eval(v[4:].split('=', 1)[1])
+        else:
+            chk.k_bad('binding', dict(binding=out), None, ent, None); continue
+        got = cells[p_]
+        if (got is want) or (type(got) is type(want) and got == want): chk.k_ok('binding:' + p_)
+        else: chk.k_bad('binding:' + p_, dict(binding=out), repr(got), ent, None)
 
 # ----------------------------------------------------------------------------------------------- K on the bare formulas
 def k_formulas(chk, ctx, rng, n):
@@ -562,6 +761,38 @@ def l3_real_models(chk, ctx, rng, reps):
                         chk.fail('%s:k=%d:order' % (wn, k), '%s(%s): result depends on the order of the grid list / on passing pts by keyword' % (wn, mname), inp)
                     if not isinstance(r, dadi.Spectrum) or r.pop_ids != fs.pop_ids or r.shape != fs.shape:
                         chk.fail('%s:k=%d:labels' % (wn, k), '%s(%s): labels/shape not preserved' % (wn, mname), inp)
+                    if k >= 2:
+                        # an explicit extrap_x_l overrides the extrap_x that from_phi recorded on these Spectra: the result must be the
+                        # Lagrange value at 0 of the raw per-grid spectra in the explicit x values (exact weights, float combination)
+                        x_exp = [coarse(1.0 / p) for p in pts_l]
+                        ampx, Lsx = lebesgue0(x_exp)
+                        chk.l3(('real_explicit', mname, k, log))
+                        try:
+                            fexx = (N.make_extrap_log_func if log else N.make_extrap_func)(mf, extrap_x_l=x_exp)
+                            rx = fexx(params, ns, pts_l)
+                            raw = fexx(params, ns, pts_l, no_extrap=True)
+                        except Exception as e:
+                            chk.fail('%s:k=%d:x_source:%s' % (wn, k, type(e).__name__), '%s(%s, extrap_x_l=%r) raises %r' % (wn, mname, x_exp, e), inp); continue
+                        if ampx <= AMP_MAX:
+                            stack = np.array([np.ma.getdata(q) for q in raw], dtype=float)
+                            W = np.array([float(L) for L in Lsx])
+                            use = ~np.ma.getmaskarray(r)
+                            with np.errstate(all='ignore'):
+                                if log:
+                                    use = use & np.all(stack > 0, axis=0)
+                                    ref = np.exp(np.tensordot(W, np.log(np.where(stack > 0, stack, 1.0)), axes=1))
+                                    scale_ = ref * (1.0 + np.max(np.abs(np.log(np.where(stack > 0, stack, 1.0))), axis=0))
+                                else:
+                                    ref = np.tensordot(W, stack, axes=1)
+                                    scale_ = np.max(np.abs(stack))
+                                best_ = stack[int(np.argmin(x_exp))]
+                                use = use & (best_ > 0) & (ref > 0) & (np.abs(np.log10(np.where((ref > 0) & (best_ > 0), ref / np.where(best_ > 0, best_, 1.0), 1.0))) < 9.5)
+                            gx = np.ma.getdata(rx)
+                            if not np.all(np.abs(gx[use] - ref[use]) <= (1e-9 + 400 * EPS * ampx) * (scale_[use] if log else scale_)):
+                                chk.fail('%s:k=%d:x_source' % (wn, k), '%s(%s) with the explicit extrap_x_l %r: the result is not the extrapolation of the per-grid spectra in these x values '
+                                         '(max deviation %.3g; the spectra carry extrap_x %r)' % (wn, mname, x_exp, float(np.max(np.abs(gx[use] - ref[use]))) if np.any(use) else 0.0,
+                                                                                                 [getattr(q, 'extrap_x', None) for q in raw]), inp)
+                            chk.stat('real_model_explicit_x')
                     if k == 1:
                         direct = mf(params, ns, pts_l[0])
                         if not np.allclose(np.ma.getdata(direct)[~direct.mask], a, rtol=1e-12, atol=0):
@@ -599,30 +830,44 @@ def run(chk, ctx):
     chk.rule = ('cases: k = number of grid sizes in 0..8 (mostly 1..6) x x-values (default_grid(pts)[1] increasing / shuffled, geometric, random, '
                 'mixed sign; all distinct) x array- or Spectrum-valued model (1-D/2-D, masked corners, pop_ids, size-0/size-1 arrays) x linear or log '
                 'mode x polynomial degree (< k: exactness applies; >= k: order/K only) x fail_mag (default, whole and fractional decades) x pts '
-                'positional/keyword/scalar x explicit extrap_x_l or extrap_x taken from the results x planted entries whose exact extrapolation lies a chosen '
+                'positional/keyword/scalar x source of the x values (explicit extrap_x_l with array results / with Spectrum results carrying the same, other or no (None) '
+                'extrap_x; extrap_x of the results; none at all = must be refused) x planted entries whose exact extrapolation lies a chosen '
                 'number of decades above/below the finest-grid value; every ordering of the grid list for k<=4, random orderings + reversal for k=5,6; '
                 'real models snm/two_epoch/split_mig with k=1..6. non-trivial/distinct = distinct (k, x kind, valued, mode, pts style, x source, rank, '
                 'degree<k, planted, fail_mag); re-orderings of one case are counted as evaluations only')
     chk.unproved = ['round-off: theorems are about exact field arithmetic; agreement of the float formulas with them is numerical (K, 1e-9 of the input scale, ill-conditioned x sets skipped)',
                     'log variant: exp/log are real functions in C07_log_k; the float exp/log round trip and the fallback decision in log mode are only searched (L3)',
                     'fallback test for a fractional fail_mag and the IEEE corner cases (ratio <= 0, best = 0) are modelled (K) / searched (L3), the theorem covers positive ratios and whole decades',
-                    'labels (pop_ids, mask, Spectrum type), pts positional/keyword/scalar, no_extrap, missing extrap_x: glue, searched by L3 only',
+                    'labels (pop_ids, mask, Spectrum type), pts positional/keyword/scalar, no_extrap: glue, searched by L3 only',
+                    'which x values are used: the statements assigning x_l are translated (xSelect, C07_xsource_*/C07_xs_*) and the x list the real formulas receive is compared (K); '
+                    'that a TypeError is what arithmetic with None raises is modelled by hand (xValues) and compared in K',
                     'extrap_x recorded by Spectrum.from_phi: checked on real models (L3), not modelled']
     chk.assumptions += ['tools/gen_Extrap.py (closed formulas, dispatch chain and fallback test of dadi/Numerics.py -> polymorphic Lean definitions)']
     nform = 6 if tier == 'quick' else 60
     table = k_formulas(chk, ctx, rng, nform)
+    k_xsource(chk, ctx, rng, table, 1 if tier == 'quick' else 12)
+    k_binding(chk, ctx)
     # structured sweep first (every k in 1..6 in both modes, both value kinds), then random cases, then edge counts
     cases = []
     for k in range(1, 7):
         for mode in ('linear', 'log'):
-            for valued in ('array', 'spectrum'):
-                cases.append(gen_case(rng, dadi, tier, k=k, mode=mode, valued=valued))
+            for valued, xsrc in (('array', 'explicit'), ('array', 'absent'), ('spectrum', 'results'), ('spectrum', 'explicit+same'),
+                                 ('spectrum', 'explicit+other'), ('spectrum', 'explicit+none'), ('spectrum', 'absent')):
+                cases.append(gen_case(rng, dadi, tier, k=k, mode=mode, valued=valued, xsrc=xsrc))
+    # the fallback clause for every k >= 2, both modes (log mode with the default fail_mag goes through make_extrap_log_func), the
+    # stated default of ten decades and a chosen number: one entry inside the window, one beyond it
+    for k in range(2, 7):
+        for mode in ('linear', 'log'):
+            for fmag in (None, [2, 5, 12, 3.5][int(rng.integers(4))]):
+                cases.append(gen_case(rng, dadi, tier, k=k, mode=mode, planted='both', fail_mag=fmag,
+                                      xkind=['grid', 'grid_shuffled', 'geometric', 'random'][int(rng.integers(4))],
+                                      xsrc=None))
     nrand = 60 if tier == 'quick' else 5000
     for _ in range(nrand):
         cases.append(gen_case(rng, dadi, tier))
     for k in (0, 7, 8):
         for mode in ('linear', 'log'):
-            cases.append(gen_case(rng, dadi, tier, k=k, mode=mode, valued='array', planted=0.0, xkind='geometric'))
+            cases.append(gen_case(rng, dadi, tier, k=k, mode=mode, valued='array', planted=0.0, xkind='geometric', xsrc='explicit'))
     for c in cases:
         check_case(chk, ctx, c, perms=4 if tier == 'quick' else 12)
     l3_glue(chk, ctx, rng)
@@ -642,5 +887,8 @@ def replay(chk, ctx, data):
         l3_real_models(chk, ctx, rng, 1)
     elif 'glue' in inp:
         l3_glue(chk, ctx, rng)
+    elif 'xsel' in inp or 'binding' in inp:
+        table = k_formulas(chk, ctx, rng, 1)
+        k_xsource(chk, ctx, rng, table, 2); k_binding(chk, ctx)
     else:
         run(chk, ctx)
